@@ -102,8 +102,17 @@ def _shard(args):
         if a["a"] == "Dispatch" and len(a["ret"]["calls"]) < len(a["obs"]["iter"][a["t"] - 11]):
             detail["once_skipped"] += 1
     samples = []
-    for w in (walks[len(walks) // 2:len(walks) // 2 + 1] + walks[-1:]):
-        samples.append([_label(g.edges[ei][1]) for ei in w])
+    want = [lambda a: a["a"] == "Dispatch" and len(a["ret"]["calls"]) >= 3,
+            lambda a: a["a"] == "Dispatch" and a["m"] == "iter" and any(c["x"] > 0 for c in a["ret"]["calls"]),
+            lambda a: a["a"] == "ExecOnce" and a["ret"]["out"] == "raise"]
+    for w in walks:
+        for i, pred in enumerate(want):
+            if pred is not None and any(pred(g.edges[ei][1]) for ei in w):
+                samples.append([_label(g.edges[ei][1]) for ei in w])
+                want[i] = None
+                break
+        if not any(want):
+            break
     dg = lambda k: hashlib.blake2b(k.encode(), digest_size=8).digest()
     sdig = set(dg(k) for k in g.states)
     edig = set(dg(fk + graph.key({k: v for k, v in a.items() if k != "obs"}) + tk) for fk, a, tk in g.edges)
